@@ -63,6 +63,26 @@ func (p *parseContext) Apply() error {
 	return nil
 }
 
+// ApplyFrom applies the functions deferred since "mark", a previous value of
+// len(p.apply), and leaves the earlier ones pending.
+//
+// Functions deferred before "mark" belong to enclosing productions: applying
+// them as well would write their captures even if the attempt the enclosing
+// production is part of is later abandoned.
+func (p *parseContext) ApplyFrom(mark int) error {
+	if mark > len(p.apply) {
+		mark = len(p.apply)
+	}
+	pending := p.apply[mark:]
+	p.apply = p.apply[:mark]
+	for _, apply := range pending {
+		if err := setField(apply.tokens, apply.strct, apply.field, apply.fieldValue); err != nil {
+			return err
+		}
+	}
+	return nil
+}
+
 // Branch accepts the branch as the correct branch.
 func (p *parseContext) Accept(branch *parseContext) {
 	p.apply = append(p.apply, branch.apply...)
